@@ -1,6 +1,9 @@
 """C03 - a transaction runs only when it is fully enabled."""
 
+from hypothesis import strategies as st
+
 from tv.designs import gen_spec
+from tv.props import c12
 from tv.props._core_a import run_design, tier_opts
 
 ID = "C03"
@@ -21,14 +24,25 @@ TECHNIQUE = "grammar-based design generation + exhaustive input valuations again
 
 
 def budget(tier):
-    return dict(examples=25, seconds=45) if tier == "quick" else dict(examples=300, seconds=420)
+    return dict(examples=70, seconds=45) if tier == "quick" else dict(examples=300, seconds=420)
 
 
 def strategy(tier):
-    return gen_spec(**{**tier_opts(tier), **dict(allow_rels=True, allow_rdep=True)})
+    general = gen_spec(**{**tier_opts(tier), **dict(allow_rels=True, allow_rdep=True)})
+    # one case in five is a condition() block reached through a guarded call chain (C12's generator): its branches
+    # are nested transactions, for which this property demands: run(branch) implies the enclosing body runs, the branch condition (its ready) holds and its callees are ready
+    cond = c12.strategy(tier).map(lambda sp: {"gen": "condition", "spec": sp})
+    return st.integers(0, 4).flatmap(lambda k: cond if k == 4 else general)
 
 
 def run_case(case):
+    if case.get("gen") == "condition":
+        res = c12.run_case(case["spec"])
+        res.labels = ["condition_block"] + res.labels
+        if res.violation is not None and not res.violation.startswith(('P1', 'P3', 'branch')):
+            res.violation = None  # the other clauses of C12 are not this property's business
+        res.nontrivial = res.nontrivial and "guarded_call" in res.labels
+        return res
     def extra(ob, orc):
         orc.classify_blocking(ob)
         return None
